@@ -9,7 +9,7 @@
    Only statements; proofs are [exact]. *)
 From Coq Require Import List NArith Arith Bool Lia.
 From LBZ Require Import SchedC.SchedCIface Gen.SchedCTab SchedC.Pool SchedC.PoolLemmas SchedC.SchedC SchedC.SchedCInv
-  SchedC.Tiling SchedC.SchedCOrder SchedC.SchedCData SchedC.Copy SchedC.CopyProofs.
+  SchedC.Tiling SchedC.SchedCOrder SchedC.SchedCData SchedC.SchedCDataU SchedC.Copy SchedC.CopyProofs.
 Import ListNotations.
 
 (* 2a. the chunk list the reader thread produces is [cut M input] for every
@@ -29,24 +29,22 @@ Theorem C03_short_writes : forall (A : Type) (frag : list nat) (buf file : list 
   xwrite frag buf file = file ++ buf.
 Proof. exact xwrite_all. Qed.
 
-(* 3. confluence of the scheduler on its output, default mode: two complete runs on
-   the same chunk list and level - any worker counts n1, n2 >= 1, any interleavings -
-   have passed the same blocks (positions and contents) to xwrite() in the same
-   order.  The trailer is a fold over that list, the header depends on the level.
-   PARTIAL: proved for the default mode ([ultra] = false).  The same statement for
-   --sequential is not proved (missing: the invariant that the unfinished block
-   is followed in the position chain by the head of coll_q, and the positional
-   specification of blocks that span chunks); it is covered by the byte comparison
-   of checks/c03.py only. *)
-Theorem C03_confluent_partial :
+(* 3. confluence of the scheduler on its output, BOTH modes (default and
+   --sequential): two complete runs on the same chunk list and level - any worker
+   counts n1, n2 >= 1, any interleavings - have passed the same blocks (positions
+   and contents) to xwrite() in the same order.  The trailer is a fold over that
+   list, the header depends on the level.  (--sequential: SchedC/SchedCDataU.v, where
+   a complete run is shown to write exactly the output of the pure sequential
+   collector machine, blocks spanning chunks included.) *)
+Theorem C03_confluent :
   forall (Data Enc : Type) (data_len : Data -> N) (enc_empty : Enc) (collect : Enc -> Data -> Enc * Data * bool)
-         (chunks : list Data) (level : N) (n1 n2 : nat) s1 s2,
+         (chunks : list Data) (level : N) (ultra : bool) (n1 n2 : nat) s1 s2,
     1 <= n1 -> 1 <= n2 ->
-    reachable data_len enc_empty collect n1 false level chunks s1 ->
-    reachable data_len enc_empty collect n2 false level chunks s2 ->
+    reachable data_len enc_empty collect n1 ultra level chunks s1 ->
+    reachable data_len enc_empty collect n2 ultra level chunks s2 ->
     final s1 = true -> final s2 = true ->
     written s1 = written s2.
-Proof. exact c03_confluent_default. Qed.
+Proof. exact c03_confluent. Qed.
 
 (* every block anywhere in the system is the block the specification assigns to its
    position: contents and extent are a function of (chunk list, position) *)
